@@ -76,16 +76,19 @@ where
             self.max = view_last;
             self.last = view_last;
         }
-        if self.q_vals.len() >= self.window_len {
-            let old = *self.q_vals.front().unwrap();
+        let evicted = if self.q_vals.len() >= self.window_len {
+            self.q_vals.pop_front()
+        } else {
+            None
+        };
+        self.q_vals.push_back(view_last);
+        if let Some(old) = evicted {
             if old <= self.min || old >= self.max {
                 let (min, max) = extent_queue(&self.q_vals);
                 self.min = min;
                 self.max = max;
             }
-            self.q_vals.pop_front();
         }
-        self.q_vals.push_back(view_last);
         if view_last > self.max {
             self.max = view_last;
         }
